@@ -58,6 +58,7 @@ class Unit:
         self.assumes = list(assumes)
         self.reveal = ()
         self.ghost_params = ()
+        self.local_types = {}
         self.stmt_hints = []  # [(source-prefix, {snapshot name: expr}, [lemma instance exprs])]
         self.src_info = None
 
@@ -157,9 +158,37 @@ class Registry:
         b = B2.builtin(name)
         if b is not None:
             return b
-        if name in ("True", "False", "None"):
+        return self.module_global(sx, name, st)
+
+    def module_global(self, sx, name, st):
+        """a name assigned once at module level of the unit's file to a constant expression
+        (literals, tuples of literals, re.compile(literal)): evaluated on demand"""
+        u = self.cur_unit
+        if u is None:
             return None
-        return None
+        key = (u.path, name)
+        cache = self.__dict__.setdefault("_modglobals", {})
+        if key in cache:
+            return cache[key]
+        text, tree = load_source(u.path)
+        found = None
+        for node in tree.body:
+            if isinstance(node, ast.Assign) and len(node.targets) == 1 and isinstance(node.targets[0], ast.Name) and node.targets[0].id == name:
+                found = node.value if found is None else "multiple"
+        if found is None or found == "multiple":
+            return None
+        tmp = State()
+        sx.spec_mode += 1
+        try:
+            v = sx.ev1(found, tmp)
+        except Unsupported:
+            return None
+        finally:
+            sx.spec_mode -= 1
+        if tmp.pc or isinstance(v, Ref):
+            return None
+        cache[key] = v
+        return v
 
     def method(self, *a, **k):  # overloaded: declaration (2 str args) or lookup (sx, obj, attr, st)
         if len(a) >= 2 and isinstance(a[0], str):
@@ -292,7 +321,9 @@ class Registry:
         for (name, src) in spec.iter_post:
             extra = {"_exit": V.mk_str(out.kind)}
             for g, v in head_ghost.items():
-                if isinstance(v, Val) and not g.startswith("__"):
+                if g.startswith("__local_"):
+                    extra["head_" + g[8:]] = v
+                elif isinstance(v, Val) and not g.startswith("__"):
                     extra["head_" + g] = v
             c = sx.eval_spec(src, out.st, extra)
             sx.oblige(out.st, "%s/loop%s/iter:%s" % (sx.cur_func, spec.label, name), c, "iteration-post", stmt)
@@ -401,6 +432,10 @@ class Registry:
     value_method = str_of = bytes_of = getattr_dynamic = binop = comprehension_over = star_call = _none
     join_model = split_model = format_model = json_iter = _none
 
+    def call_value(self, sx, f, args, kwargs, st, node):
+        h = self.hooks.get(("call", repr(getattr(f, "ty", None))))
+        return h(sx, f, args, kwargs, st, node) if h else None
+
     def comprehension_partiality(self, sx, node, src, i, st):
         pass
 
@@ -493,6 +528,7 @@ PURE_METHODS = {
     "lower", "upper", "startswith", "endswith", "hex", "encode", "decode", "replace", "strip", "isalnum", "join", "split",
     "format", "get", "items", "keys", "values", "to_bytes", "bit_length", "intersection", "union", "fromhex", "has_tag",
     "verify", "from_bytes", "translate", "first", "fetchone", "isoformat", "time", "perf_counter", "key",
+    "match", "fullmatch", "search", "compile", "isdigit", "isalpha", "hexdigest", "digest", "count", "index", "find",
 }
 LOG_METHODS = {"debug", "info", "warning", "error", "exception", "critical", "log", "getLogger"}
 
